@@ -160,6 +160,8 @@ theorem applyRes_queue (cfg : Cfg) (pol : Policy) (step : Nat) (tickEv : Ev) (dc
       · simp
   | addCollected buf ev =>
     simp only [applyRes]
+    split
+    · rfl
     split <;> (simp only [State.set]; split <;> (try rename_i h; subst h) <;> rfl)
   | deleteCollected buf =>
     simp only [applyRes]
